@@ -34,7 +34,7 @@ def gen_spec(rng, cls=None, force_nan=None):
     cls = cls or D.CLASSES[int(rng.integers(len(D.CLASSES)))]
     n = int(rng.integers(2, 5))
     block = bool(rng.integers(2)) and cls != "nlpadmm"
-    spec = {"cls": cls, "n": n, "block": block, "has_eval": bool(rng.random() < 0.8)}
+    spec = {"cls": cls, "n": n, "block": block, "has_eval": bool(rng.random() < 0.8), "has_eval2": bool(rng.random() < 0.85)}
     if cls == "admm":
         # the generic (scipy) solver is slow: keep it rare
         r = rng.random()
